@@ -73,8 +73,9 @@ func (d *c18KaDriver) apply(e c18Ev) ([]c18Obs, error) {
 			return nil, nil
 		}
 		if e.kind != 'B' {
+			t0 := time.Now()
 			d.mon.Notify()
-			d.clk = c18Clock{e.t, d.mon.LastActivity()}
+			d.clk = d.clk.rebase(e.t, d.mon.LastActivity(), t0)
 		}
 		if e.kind != 'R' && e.g >= 1 && e.g <= len(d.cbs) {
 			d.cbs[e.g-1]()
